@@ -3,7 +3,7 @@ import json
 import lib
 
 SHAPES = ["json+missing", "json+emptydir", "tmpl+missing", "json+dotdir", "dir+json+emptyjson", "emptyjson+json", "dir+textfile",
-          "tmpl+json+emptydir", "missing+dir", "json+tmpl"]
+          "tmpl+json+emptydir", "missing+dir", "json+tmpl", "dir", "dir+emptyjson"]
 SCENARIOS = ["override", "restore", "restore-dirty", "overwrite-only", "backup-only", "rebackup"]
 
 
@@ -61,7 +61,10 @@ def run(run):
     sizes = [(6, False)] + ([(40, True)] if not quick else [(25, True)])
     probes = [{"scenario": sc, "n": n, "big": big} for sc in SCENARIOS for n, big in sizes]
     # override path lists of several kinds (which path contributes pages, in which format, with or without a template)
-    shapes = SHAPES if not quick else [SHAPES[(run.seed + j) % len(SHAPES)] for j in range(4)] + SHAPES[:2]
+    # (the lists whose pages all come from directories of TITLE files are always among them: the two formats are read by
+    # different branches of overwrite_pages)
+    shapes = SHAPES if not quick else ["dir+textfile", "missing+dir", "dir+emptyjson"] + \
+        [SHAPES[(run.seed + j) % len(SHAPES)] for j in range(3)] + SHAPES[:1]
     probes += [{"scenario": sc, "n": 6, "big": False, "shape": sh} for sh in dict.fromkeys(shapes) for sc in ("override", "restore")]
     pres = lib.run_impl("c11", probes, shards=len(probes))
     cases = []
